@@ -1,5 +1,9 @@
 """C18 — rejections name the offending field; collect-all mode reports all invalid ones.
 
+Streams: random argument sets; the enumerated lattice of harness/c18lattice.py (leaf kind x value class x
+position); the validation chains of harness/c18guards.py (real field objects against the chains regenerated
+into Gen/GuardProgs.v); nested documents.
+
 Proof obligations: Props/C18.v (theorems over ALL names / value texts / argument lists; the template
 table Gen/Templates.v is regenerated from the raise sites of the working tree on every run).
 Tie to the code: (1) every observed field-level exception is re-rendered inside Coq from the generated
@@ -21,9 +25,10 @@ from harness import coqemit as E
 from harness import fieldgen as G
 from harness import structgen as S
 from harness.genmods import templates as gen
+from harness import c18lattice as L
 
 SCALARS = ("num", "str", "bool", "enumlit", "enumcls")
-IMPORTS = G.IMPORTS + "from typedpy import Deserializer\n"
+IMPORTS = G.IMPORTS + "from typedpy import Deserializer\n" + L.IMPORTS
 
 
 # ------------------------------------------------------------------ generation of flat classes
@@ -72,7 +77,19 @@ def realise(c):
     return ns[c["name"]], ns
 
 
+# values of a class no scalar field accepts: unhashable ones, hashable containers, an enum member
+ODD_VALUES = [("list", [("int", 1)]), ("list", []), ("dict", [(("str", "k"), ("int", 1))]), ("dict", []),
+              ("set", False, [("int", 1)]), ("deque", [("int", 1)]), ("tuple", [("list", [])]),
+              ("tuple", [("int", 1)]), ("tuple", []), ("set", True, [("int", 1)]), ("enum", "Color", "RED", ("int", 1))]
+
+
 def wrong_type(g, rnd):
+    if rnd.random() < 0.3:
+        return rnd.choice(ODD_VALUES)
+    return _wrong_type(g, rnd)
+
+
+def _wrong_type(g, rnd):
     t = g["t"]
     if t == "num":
         return rnd.choice([("str", "zz"), ("str", "7"), ("list", [("int", 1)])]) if rnd.random() < 0.8 else ("none",)
@@ -287,11 +304,59 @@ def origin_of(e):
     return (os.path.relpath(fr.f_code.co_filename, TYPEDPY_DIR), fr.f_code.co_name, last.tb_lineno, fr)
 
 
+def raise_statement_at(rel, line):
+    """The template of the `raise` statement of typedpy/<rel> that spans `line`, or None: the exception
+    then comes from the interpreter / a library while an expression of that line was evaluated."""
+    for t in template_table():
+        if t["file"] == rel and t["line"] <= line <= t["end_line"]:
+            return t
+    return None
+
+
+def leaf_kind(obj):
+    """The kind of the field object whose method raised, in the vocabulary of the generators: the class
+    name, and for Enum (one class, two validation branches) which of the two it is."""
+    if obj is None:
+        return "-"
+    name = type(obj).__name__
+    if hasattr(obj, "_is_enum"):
+        name += "[cls]" if getattr(obj, "_is_enum") else "[values]"
+    return re.sub(r"[^A-Za-z0-9_\[\]]", "_", name)
+
+
 def origin_key(e):
+    """file:function:exception of the innermost typedpy frame.  An exception that no `raise` statement of
+    typedpy produced (a comparison, a hash, an index that failed) is further keyed by WHICH kind of field
+    was validating WHICH category of value (number / unhashable / other): one such key = one root cause, so that a known finding about one
+    field kind never covers the same symptom appearing in another."""
     o = origin_of(e)
     if o is None:
         return "outside-typedpy:%s" % type(e).__name__
-    return "%s:%s:%s" % (os.path.basename(o[0]), o[1], type(e).__name__)
+    rel, fn, line, fr = o
+    if raise_statement_at(rel, line) is not None:
+        return "%s:%s:%s" % (os.path.basename(rel), fn, type(e).__name__)
+    # not tied to the name of the function the expression happens to live in: extracting a helper does not
+    # turn a known defect into a new one
+    loc = fr.f_locals
+    val = loc["value"] if "value" in loc else loc.get("source_val", loc.get("val", _MISSING))
+    return "%s:%s/%s/%s" % (os.path.basename(rel), type(e).__name__, leaf_kind(loc.get("self")),
+                            "-" if val is _MISSING else value_category(val))
+
+
+def value_category(v):
+    """number | unhashable | other: what decides whether ordering / hashing / converting v can fail."""
+    import decimal
+    import numbers
+    if isinstance(v, (numbers.Number, decimal.Decimal)):
+        return "number"
+    try:
+        hash(v)
+    except Exception:  # noqa
+        return "unhashable"
+    return "other"
+
+
+_MISSING = object()
 
 
 def site_of(e):
@@ -301,8 +366,8 @@ def site_of(e):
     if o is None:
         return None
     rel, _, line, fr = o
-    for t in template_table():
-        if t["file"] == rel and t["line"] <= line <= t["end_line"]:
+    for t in [raise_statement_at(rel, line)]:
+        if t is not None:
             env = dict(fr.f_globals)
             loc = dict(fr.f_locals)
             params = {}
@@ -318,7 +383,16 @@ def site_of(e):
                     elif s[0] == "value":
                         got = loc[s[2]]
                     elif s[0] == "param":
-                        params[s[1]] = str(eval(s[1], env, loc))  # noqa: S307
+                        try:
+                            params[s[1]] = str(eval(s[1], env, loc))  # noqa: S307
+                        except NameError:
+                            # `except ... as e:` unbinds e when the block is left, also by a raise: the handled
+                            # exception is still reachable from the one it was turned into
+                            m = re.fullmatch(r"(?:str\()?([A-Za-z_][A-Za-z0-9_]*)\)?", s[1])
+                            if m and m.group(1) not in loc and e.__context__ is not None:
+                                params[s[1]] = str(e.__context__)
+                            else:
+                                raise
                     elif s[0] == "other":
                         return {"t": t, "unrenderable": True}
                 except Exception:  # noqa
@@ -330,10 +404,11 @@ def site_of(e):
 
 def root_cause(e):
     """The field-level exception behind a construction error (Structure.__init__ chains it)."""
-    seen = 0
-    while e.__cause__ is not None and seen < 5:
-        e = e.__cause__
-        seen += 1
+    # one level: `raise e.__class__(f"{cls_name}.{e}") from e`.  What the field's own raise statement is chained
+    # to in turn (`raise ValueError(...) from ex` inside a validator) is not the field-level exception.
+    c = e.__cause__
+    if c is not None and str(e).endswith("." + str(c)):
+        return c
     return e
 
 
@@ -555,35 +630,58 @@ def emit_obs_ei(ei):
 
 
 HEADER = """From Coq Require Import ZArith NArith String List Bool. Import ListNotations.
-From TP Require Import Base.PyVal Base.PyEq Errors.Template Errors.Render Errors.Parse Errors.TemplateOk Errors.Collect Check.C18chk.
+From TP Require Import Base.PyVal Base.PyEq Base.PyOps Errors.Template Errors.Render Errors.Parse Errors.TemplateOk Errors.Collect
+  Errors.Guard Errors.GuardSchema Gen.GuardProgs Check.C18chk.
 Local Open Scope string_scope.
 """
 
 
-def eval_stream(rep, name, ctype, fn_names, items, per=300):
-    """Evaluates boolean functions over emitted cases inside Coq; returns {fn: [indices]} or None."""
-    if not items:
-        return {f: [] for f in fn_names}
+def eval_streams(rep, specs, streams, per=300, extra=None):
+    """Evaluates the boolean functions of every stream over its emitted cases inside Coq, all shards of all
+    streams in one parallel batch.  specs: [(name, case type, [function names])].
+    Returns ({name: {fn: [indices]} | None}, [values of the `extra` commands] | None)."""
     shards = []
-    for s in range(0, len(items), per):
-        body = "Definition cases : list %s := %s.\n" % (ctype, E.lst(["\n " + i for i in items[s:s + per]]))
-        for f in fn_names:
-            body += "Eval vm_compute in (indices_where %s cases 0).\n" % f
-        shards.append(body)
+    owner = []
+    for name, ctype, fns in specs:
+        items = [x[0] for x in streams[name]]
+        for s0 in range(0, len(items), per):
+            body = "Definition cases : list %s := %s.\n" % (ctype, E.lst(["\n " + i for i in items[s0:s0 + per]]))
+            for f in fns:
+                body += "Eval vm_compute in (indices_where %s cases 0).\n" % f
+            shards.append(body)
+            owner.append((name, s0))
+    if extra:
+        shards.append("".join("Eval vm_compute in (%s).\n" % e for e in extra))
+        owner.append(("__extra__", 0))
     import time as _t
     _t0 = _t.time()
-    res = core.eval_cases(shards, "c18" + name, HEADER)
+    if os.environ.get("C18_KEEP"):
+        os.makedirs(os.environ["C18_KEEP"], exist_ok=True)
+        for i, (b, o) in enumerate(zip(shards, owner)):
+            with open(os.path.join(os.environ["C18_KEEP"], "keep_%s_%d.v" % (o[0].strip("_"), i)), "w") as fh:
+                fh.write(HEADER + "\n" + b)
+    res = core.eval_cases(shards, "c18all", HEADER) if shards else []
     if os.environ.get("C18_TIMING"):
-        print("[c18] stream %s: %d cases in %d shards, %.1fs" % (name, len(items), len(shards), _t.time() - _t0))
-    out = {f: [] for f in fn_names}
-    for si, (rc, so, se) in enumerate(res):
+        print("[c18] coq evaluation: %d shards, %.1fs" % (len(shards), _t.time() - _t0))
+    out = {name: {f: [] for f in fns} for name, _, fns in specs}
+    fns_of = {name: fns for name, _, fns in specs}
+    extra_vals = None
+    for (name, s0), (rc, so, se) in zip(owner, res):
         vals = core.parse_eval(so)
-        if rc != 0 or len(vals) != len(fn_names):
-            rep.broken("correspondence:%s/coq-eval" % name, "case shard %d failed to evaluate: %s" % (si, (so + se)[-1500:]))
-            return None
-        for f, v in zip(fn_names, vals):
-            out[f] += [si * per + i for i in core.parse_nat_list(v)]
-    return out
+        if name == "__extra__":
+            extra_vals = vals if rc == 0 and len(vals) == len(extra) else None
+            if extra_vals is None:
+                rep.broken("correspondence:extra/coq-eval", "evaluation failed: %s" % (so + se)[-1500:])
+            continue
+        if out[name] is None:
+            continue
+        if rc != 0 or len(vals) != len(fns_of[name]):
+            rep.broken("correspondence:%s/coq-eval" % name, "case shard at %d failed to evaluate: %s" % (s0, (so + se)[-1500:]))
+            out[name] = None
+            continue
+        for f, v in zip(fns_of[name], vals):
+            out[name][f] += [s0 + i for i in core.parse_nat_list(v)]
+    return out, extra_vals
 
 
 # ------------------------------------------------------------------ one argument set, all configurations
@@ -610,45 +708,179 @@ NESTED_INPUTS = [
 ]
 
 
-def nested_checks(rep):
-    """For nested structures the helper must return without raising (all four configurations)."""
+NESTED3_SRC = """
+class Leaf(Structure):
+    x = PositiveInt
+    s = String(maxLength=3)
+    e = Enum(values=Color)
+    a = Array[Integer]
+    _required = ['x']
+
+class Mid(Structure):
+    leaf = Leaf
+    leaves = Array[Leaf]
+    by = Map[String, Leaf]
+    n = Integer
+    _required = []
+
+class Top(Structure):
+    mid = Mid
+    mids = Array[Mid]
+    pair = Tuple[Leaf, Integer]
+    i = Integer
+    _required = []
+"""
+
+_LEAF_BAD = {"x": [-1, 0, "a", [], 1.5, True], "s": ["toolong", 5, "a\nb", ["x"], ""], "e": ["NOPE", [1], 7, {"k": 1}],
+             "a": [[1, "x"], 5, "12", [[1]], {"k": 1}]}
+
+
+def _leaf(rnd):
+    d = {"x": rnd.choice([1, 2, 7])}
+    if rnd.random() < 0.7:
+        d["s"] = rnd.choice(["ab", "", "abc"])
+    if rnd.random() < 0.6:
+        d["e"] = rnd.choice(["RED", "GREEN"])
+    if rnd.random() < 0.6:
+        d["a"] = rnd.choice([[1, 2], [], [3]])
+    return d
+
+
+def _mid(rnd):
+    d = {}
+    if rnd.random() < 0.7:
+        d["leaf"] = _leaf(rnd)
+    if rnd.random() < 0.6:
+        d["leaves"] = [_leaf(rnd) for _ in range(rnd.randint(0, 3))]
+    if rnd.random() < 0.5:
+        d["by"] = {k: _leaf(rnd) for k in rnd.sample(["k", "m", "zz"], rnd.randint(0, 2))}
+    if rnd.random() < 0.5:
+        d["n"] = rnd.choice([0, 5])
+    return d
+
+
+def _top(rnd):
+    d = {}
+    if rnd.random() < 0.7:
+        d["mid"] = _mid(rnd)
+    if rnd.random() < 0.6:
+        d["mids"] = [_mid(rnd) for _ in range(rnd.randint(0, 2))]
+    if rnd.random() < 0.5:
+        d["pair"] = [_leaf(rnd), rnd.choice([0, 3])]
+    if rnd.random() < 0.5:
+        d["i"] = 4
+    return d
+
+
+def _leaves_of(doc, acc):
+    """every dict of the document that is a Leaf document (has 'x'), to be corrupted in place"""
+    if isinstance(doc, dict):
+        if "x" in doc:
+            acc.append(doc)
+        for v in doc.values():
+            _leaves_of(v, acc)
+    elif isinstance(doc, list):
+        for v in doc:
+            _leaves_of(v, acc)
+    return acc
+
+
+def _containers_of(doc, acc, parent=None, key=None):
+    if isinstance(doc, (dict, list)):
+        if parent is not None:
+            acc.append((parent, key))
+        for k, v in (doc.items() if isinstance(doc, dict) else enumerate(doc)):
+            _containers_of(v, acc, doc, k)
+    return acc
+
+
+def gen_nested_docs(rnd, n):
+    """Valid three-level documents with 1-3 point corruptions anywhere: a bad leaf value, a missing required
+    key, an unknown key, a sub-document replaced by a scalar / a list / a string."""
+    import copy
+    out = []
+    for _ in range(n):
+        doc = _top(rnd)
+        for _ in range(rnd.randint(1, 3)):
+            leaves = _leaves_of(doc, [])
+            r = rnd.random()
+            if leaves and r < 0.55:
+                lf = rnd.choice(leaves)
+                f = rnd.choice(sorted(_LEAF_BAD))
+                lf[f] = copy.deepcopy(rnd.choice(_LEAF_BAD[f]))
+            elif leaves and r < 0.65:
+                rnd.choice(leaves).pop("x", None)
+            elif leaves and r < 0.75:
+                rnd.choice(leaves)["zz"] = 1
+            else:
+                cs = _containers_of(doc, [])
+                if cs:
+                    parent, key = rnd.choice(cs)
+                    parent[key] = copy.deepcopy(rnd.choice([5, "str", [], [3], {}, {"y": 1}, None, "a\nb"]))
+                else:
+                    doc["i"] = rnd.choice(["q", 1.5, [1]])
+        out.append(doc)
+    return out
+
+
+def _to_obj(ns, cname, doc):
+    """Builds the nested instances of a document for the construction path (any rejection propagates)."""
+    if not isinstance(doc, dict):
+        return doc
+    C = ns[cname]
+    sub = {"Top": {"mid": "Mid", "mids": ["Mid"], "pair": ("Leaf",)}, "Mid": {"leaf": "Leaf", "leaves": ["Leaf"], "by": {"": "Leaf"}},
+           "Leaf": {}, "OuterN": {"inner": "InnerN", "arr": ["InnerN"], "m": {"": "InnerN"}}, "InnerN": {}}[cname]
+    kw = {}
+    for k, v in doc.items():
+        t = sub.get(k)
+        if isinstance(t, str):
+            v = _to_obj(ns, t, v)
+        elif isinstance(t, list) and isinstance(v, list):
+            v = [_to_obj(ns, t[0], x) for x in v]
+        elif isinstance(t, dict) and isinstance(v, dict):
+            v = {a: _to_obj(ns, t[""], b) for a, b in v.items()}
+        elif isinstance(t, tuple) and isinstance(v, list):
+            v = tuple([_to_obj(ns, t[0], v[0])] + list(v[1:])) if v else ()
+        kw[k] = v
+    return C(**kw)
+
+
+def nested_checks(rep, extra_docs=(), only=None):
+    """For nested structures the helper must return without raising (all four configurations): the fixed
+    two-level inputs and generated three-level documents.  only = (source name, doc) re-runs one input."""
     from typedpy import Structure, Deserializer
-    ns = {}
-    exec(IMPORTS, ns)
-    exec(NESTED_SRC, ns)
-    Outer, Inner = ns["OuterN"], ns["InnerN"]
     n = 0
-    for doc in NESTED_INPUTS:
-        for ff in (True, False):
-            for mode in ("ctor", "deser"):
-                old = Structure.failing_fast()
-                Structure.set_fail_fast(ff)
-                try:
+    groups = [("NESTED_SRC", NESTED_SRC, "OuterN", NESTED_INPUTS), ("NESTED3_SRC", NESTED3_SRC, "Top", list(extra_docs))]
+    if only is not None:
+        groups = [(g, src, top, [only[1]]) for g, src, top, _ in groups if g == only[0]]
+    for gname, src, top, docs in groups:
+        ns = {}
+        exec(IMPORTS, ns)
+        exec(src, ns)
+        for doc in docs:
+            for ff in (True, False):
+                for mode in ("ctor", "deser"):
+                    old = Structure.failing_fast()
+                    Structure.set_fail_fast(ff)
                     try:
-                        if mode == "deser":
-                            Deserializer(Outer).deserialize(dict(doc))
-                        else:
-                            kw = {}
-                            for k, v in doc.items():
-                                if k == "inner" and isinstance(v, dict):
-                                    v = Inner(**v)
-                                elif k == "arr" and isinstance(v, list):
-                                    v = [Inner(**x) if isinstance(x, dict) else x for x in v]
-                                elif k == "m" and isinstance(v, dict):
-                                    v = {a: Inner(**b) if isinstance(b, dict) else b for a, b in v.items()}
-                                kw[k] = v
-                            Outer(**kw)
-                        continue
-                    except Exception as e:  # noqa
-                        obs = observe_exception(e)
-                finally:
-                    Structure.set_fail_fast(old)
-                n += 1
-                rep.count("nested", 1, (mode, ff, obs["exn"]))
-                if obs["helper"][0] == "raise":
-                    rep.finding("C18/nested/%s/%s/helper-raises" % (mode, "ff" if ff else "all"),
-                                "helper raised on a nested-structure rejection: %s" % obs["helper"][1],
-                                {"nested": True, "doc": doc, "mode": mode, "ff": ff, "python": IMPORTS + NESTED_SRC})
+                        try:
+                            if mode == "deser":
+                                Deserializer(ns[top]).deserialize(dict(doc) if isinstance(doc, dict) else doc)
+                            else:
+                                _to_obj(ns, top, doc)
+                            rep.stat("nested", "%s:%s:accepted" % (gname, mode))
+                            continue
+                        except Exception as e:  # noqa
+                            obs = observe_exception(e)
+                    finally:
+                        Structure.set_fail_fast(old)
+                    n += 1
+                    rep.count("nested", 1, (gname, mode, ff, obs["exn"], obs["helper"][0] == "ok" and len(obs["helper"][1])))
+                    rep.stat("nested", "%s:%s:%s" % (gname, mode, obs["exn"]))
+                    if obs["helper"][0] == "raise":
+                        rep.finding("C18/nested/%s/%s/helper-raises" % (mode, "ff" if ff else "all"),
+                                    "helper raised on a nested-structure rejection: %s" % obs["helper"][1],
+                                    {"nested": True, "group": gname, "doc": doc, "mode": mode, "ff": ff, "python": IMPORTS + src})
     return n
 
 
@@ -694,20 +926,23 @@ def evaluate_case(case, rep, streams, stats_only=False):
             obs = r[1] if r else None
             # construct / deserialize correspondence
             if mode == "ctor":
-                args = E.lst(["(%s, %s)" % (E.pstr(n), E.opt(orc[n]["ctor"] and orc[n]["ctor"]["inner"], E.pstr))
+                args = E.lst(["(%s, %s)" % (E.pstr(n), E.opt(orc[n]["ctor"] and (orc[n]["ctor"]["inner"], orc[n]["ctor"]["te_ve"]),
+                                                             lambda mc: "(%s, %s)" % (E.pstr(mc[0]), E.blit(mc[1]))))
                               for n in case.bound_order()])
                 streams["construct"].append((
                     "{| cc_ff := %s; cc_cls := %s; cc_args := %s; cc_obs := %s |}" % (E.blit(ff), E.pstr(cls), args, emit_exn_text(obs)),
                     {"case": case, "mode": mode, "ff": ff}))
             else:
-                def dargs(order):
-                    return E.lst(["{| d_name := %s; d_pre := %s; d_ctor := %s; d_falsy := %s; d_caught := %s |}" % (
+                def darg(n):
+                    return "{| d_name := %s; d_pre := %s; d_ctor := %s; d_falsy := %s; d_caught := %s |}" % (
                         E.pstr(n), E.opt(orc[n]["pre"] and orc[n]["pre"]["inner"], E.pstr),
                         E.opt(orc[n]["post"] and orc[n]["post"]["inner"], E.pstr), E.blit(orc[n]["falsy"]),
-                        E.blit(not orc[n]["pre"] or orc[n]["pre"]["te_ve"])) for n in order])
+                        E.blit(not orc[n]["pre"] or orc[n]["pre"]["te_ve"]))
                 streams["deser"].append((
                     "{| dc_ff := %s; dc_cls := %s; dc_args := %s; dc_bound := %s; dc_obs := %s |}" % (
-                        E.blit(ff), E.pstr(cls), dargs(case.field_order()), dargs(case.bound_order()), emit_exn_text(obs)),
+                        E.blit(ff), E.pstr(cls), E.lst([darg(n) for n in case.field_order()]),
+                        E.lst(["(%s, %s)" % (darg(n), E.blit(not orc[n]["post"] or orc[n]["post"]["te_ve"]))
+                               for n in case.bound_order()]), emit_exn_text(obs)),
                     {"case": case, "mode": mode, "ff": ff}))
             if obs is not None and obs["helper"][0] == "ok" and not isinstance(obs["json"], tuple):
                 streams["parse"].append((
@@ -913,11 +1148,12 @@ def replay(obj):
     if obj.get("nested"):
         class R:  # minimal report
             def count(self, *a, **k): pass
+            def stat(self, *a, **k): pass
             def finding(self, key, what, o):
                 print("FAILS    :", key, "-", what)
                 self.n = getattr(self, "n", 0) + 1
         r = R()
-        nested_checks(r)
+        nested_checks(r, only=(obj.get("group", "NESTED_SRC"), obj["doc"]))
         return 1 if getattr(r, "n", 0) else 0
     if "cls_ast" not in obj:
         print(obj.get("detail", "no concrete input in this replay file"))
@@ -987,10 +1223,14 @@ def run(rep, tier):
         "C18_template_ok assumes identifier (ASCII) class and field names and no newline in the value text or in a parameter text",
         "try_expand (collect-all mode) is modelled only up to 'the problem text cannot start a JSON document'; other texts are PExpanded (not compared)",
         "repr of the re.Match object that _transform_class_to_readable interpolates for classes outside its table is opaque (PMatchRepr)",
+        "the chain theorems (C18_rejection_is_templated) assume a field object that fits the schema of Errors/GuardSchema.v "
+        "(compared with every generated field object) and speak about the validation chain up to Field.__set__: element "
+        "wrappers of collections and Enum's conversion after validation are judged on observed behaviour only",
+        "getattr(instance, '_skip_validation' | '_trust_supplied_values', False) is False (ordinary construction)",
     ]
     ws_ok, pats_ok = regex_oracle_checks(rep)
     assert Structure.failing_fast()
-    streams = {"render": [], "construct": [], "deser": [], "parse": []}
+    streams = {"render": [], "construct": [], "deser": [], "parse": [], "guard": []}
     all_fails = []
     cases = []
     for i in range(ncases):
@@ -1014,18 +1254,94 @@ def run(rep, tier):
         if i < 2:
             rep.sample({"class": S.class_src(case.cast), "kwargs": {k: G.py_src(v) for k, v in case.kw},
                         "invalid_on_their_own": sorted(n for n, o in case.orc.items() if o["ctor"])})
-    nn = nested_checks(rep)
+    if os.environ.get("C18_TIMING"):
+        print("[c18] random cases: %.1fs" % (_t.time() - _t0))
+    # ---- the enumerated part of the input space: leaf kind x value class x position
+    pts = L.points(tier, core.seed())
+    npts = 0
+    for label, cast, kw, meta, base in pts:
+        try:
+            case = Case(cast, kw, dict(meta, __baseline__={k: G.unreify(v, {}) for k, v in base.items()}))
+        except Exception as ex:  # noqa   a combination typedpy does not let one declare (e.g. an unhashable key field)
+            rep.stat("lattice", "undeclarable:%s:%s" % (label.split("|")[0] + "|" + label.split("|")[2], type(ex).__name__))
+            continue
+        cases.append(case)
+        # every point is judged by the clauses; in the quick tier one point in three also feeds the
+        # correspondence streams (the same model functions see every random case and every third point)
+        npts += 1
+        sink = streams if (tier != "quick" or npts % 3 == core.seed() % 3) else \
+            {"render": streams["render"], "construct": [], "deser": [], "parse": []}
+        try:
+            fails = evaluate_case(case, rep, sink)
+        finally:
+            Structure.set_fail_fast(True)
+        inv = bool(case.orc["a"]["ctor"] or case.orc["a"]["pre"] or case.orc["a"]["post"])
+        rep.count("lattice", 4, label if inv else None)
+        rep.stat("lattice", "position:%s:%s" % (label.split("|")[2], "invalid" if inv else "valid"))
+        for f in fails:
+            key, text, mode, ff = f[:4]
+            rep.finding(key, text, case_replay_obj(case, mode, ff, only=f[4] if len(f) > 4 else None))
+            all_fails.append(key)
+    if os.environ.get("C18_TIMING"):
+        print("[c18] with %d lattice points: %.1fs" % (len(pts), _t.time() - _t0))
+    nn = nested_checks(rep, gen_nested_docs(rnd, 120 if tier == "quick" else 1200))
+    if os.environ.get("C18_KEYS"):
+        for k, n in sorted(collections.Counter(all_fails).items()):
+            print("[c18] key %4d %s" % (n, k))
     assert Structure.failing_fast()
     rep.obligation("state:fail-fast-switch-restored", Structure.failing_fast(), "")
+
+    # ---- the validation chains: real field objects against the generated guard programs
+    from harness import c18guards
+    try:
+        streams["guard"] = c18guards.build(rep, rnd, tier)
+    finally:
+        Structure.set_fail_fast(True)
+    if os.environ.get("C18_TIMING"):
+        print("[c18] with %d guard cases: %.1fs" % (len(streams["guard"]), _t.time() - _t0))
 
     if model_ok:
         specs = [("render", "rcase", ["render_mismatch", "render_hyps"]),
                  ("parse", "pcase", ["parse_mismatch", "parse_unmodelled"]),
-                 ("construct", "ccase", ["construct_mismatch"]),
-                 ("deser", "dcase", ["deser_mismatch"])]
+                 ("construct", "ccase", ["construct_mismatch", "construct_hyps"]),
+                 ("deser", "dcase", ["deser_mismatch"]),
+                 ("guard", "gcase", ["guard_mismatch", "guard_schema_bad", "guard_bare_under_hyps", "guard_hyps",
+                                     "guard_unmodelled"])]
+        results, extra = eval_streams(rep, specs, streams, extra=["obsolete_restrictions"])
+        if extra is not None:
+            obsolete = ["".join(chr(int(x)) for x in re.findall(r"\d+", grp))
+                        for grp in re.findall(r"\[([^\[\]]*)\]", extra[0][1:-1] if extra[0].startswith("[") else "")]
+            rep.obligation("guards:restricted-domains-still-needed", True,
+                           "every restricted kind of Errors/GuardSchema.v is still rejected by the analysis on all values"
+                           if not obsolete else "the chains of %s now pass the analysis on ALL values: their restriction "
+                           "(a known defect) is obsolete and the kind can move to kinds_all_values" % ", ".join(obsolete))
+        # a guard case on which model and code differ, or a nameless exception where the theorem's hypotheses
+        # hold, is re-run as an ordinary one-field argument set: the clauses give the concrete replay
+        gres = results.get("guard")
+        if gres:
+            flagged = sorted(set(gres["guard_mismatch"]) | set(gres["guard_bare_under_hyps"]) | set(gres["guard_schema_bad"]))
+            done = set()
+            for i in flagged[:40]:
+                info = streams["guard"][i][1]
+                if "cast" not in info:
+                    continue
+                sig = (json.dumps(info["cast"], sort_keys=True, default=str), repr(info["r"]))
+                if sig in done:
+                    continue
+                done.add(sig)
+                try:
+                    gcase = Case(info["cast"], [("a", info["r"])], {"__baseline__": {}})
+                    gf = evaluate_case(gcase, rep, {"render": [], "construct": [], "deser": [], "parse": []})
+                except Exception:  # noqa
+                    continue
+                finally:
+                    Structure.set_fail_fast(True)
+                for f in gf:
+                    key, text, mode, ff = f[:4]
+                    rep.finding(key, text, case_replay_obj(gcase, mode, ff, only=f[4] if len(f) > 4 else None))
         for name, ctype, fns in specs:
             items = streams[name]
-            res = eval_stream(rep, name, ctype, fns, [x[0] for x in items])
+            res = results.get(name)
             if res is None:
                 continue
             mism = res[fns[0]]
@@ -1035,25 +1351,41 @@ def run(rep, tier):
                 rep.cov["streams"]["correspondence:render"]["theorem_hypotheses_hold"] = len(res["render_hyps"])
             if name == "parse":
                 rep.cov["streams"]["correspondence:parse"]["outside_model_domain_skipped"] = len(res["parse_unmodelled"])
-            rep.obligation("correspondence:" + name, not mism, detail)
+            if name == "construct":
+                rep.cov["streams"]["correspondence:construct"]["theorem_hypotheses_hold"] = len(res["construct_hyps"])
+            if name == "guard":
+                st = rep.cov["streams"]["correspondence:guard"]
+                st["theorem_hypotheses_hold"] = len(res["guard_hyps"])
+                st["outside_model_domain_skipped"] = len(res["guard_unmodelled"])
+                bad = res["guard_schema_bad"]
+                rep.obligation("correspondence:guard/field-objects-fit-schema", not bad,
+                               "%d cases, %d field objects outside the schema of Errors/GuardSchema.v" % (len(items), len(bad)))
+                bare = res["guard_bare_under_hyps"]
+                rep.obligation("correspondence:guard/no-nameless-exception-under-hypotheses", not bare,
+                               "%d cases satisfy the hypotheses of C18_rejection_is_templated, %d of them ended in an "
+                               "exception no raise statement produced" % (len(res["guard_hyps"]), len(bare)))
+                mism = sorted(set(mism) | set(bad) | set(bare))
+            rep.obligation("correspondence:" + name, not res[fns[0]], detail)
             if mism and os.environ.get("C18_DEBUG"):
                 for i in mism[:12]:
                     inf = items[i][1]
-                    cc = inf["case"]
-                    print("[c18] MISMATCH", name, {k: v for k, v in inf.items() if k != "case"})
+                    print("[c18] MISMATCH", name, {k: v for k, v in inf.items() if k not in ("case", "cast")})
                     print("      ", items[i][0][:1500])
             if mism:
                 explained = any(not v["no_input"] for v in rep.violations)
                 info = items[mism[0]][1]
-                c = info["case"]
                 if not explained:
-                    rep.broken("correspondence:" + name,
-                               "model (Errors/%s) and typedpy differ on %d of %d generated cases; no clause of C18 failed on "
-                               "any explored input. First: %s" % (
-                                   {"render": "Render.v + Gen/Templates.v", "parse": "Parse.v", "construct": "Collect.v",
-                                    "deser": "Collect.v"}[name], len(mism), len(items),
-                                   {k: v for k, v in info.items() if k != "case"}),
-                               case_replay_obj(c, info.get("mode", "ctor"), info.get("ff", True)))
+                    model = {"render": "Render.v + Gen/Templates.v", "parse": "Parse.v", "construct": "Collect.v",
+                             "deser": "Collect.v", "guard": "Guard.v + Gen/GuardProgs.v + GuardSchema.v"}[name]
+                    what = ("model (Errors/%s) and typedpy differ on %d of %d generated cases; no clause of C18 failed on "
+                            "any explored input. First: %s" % (model, len(mism), len(items),
+                                                               {k: v for k, v in info.items() if k not in ("case", "cast", "r")}))
+                    if name == "guard":
+                        rep.broken("correspondence:guard", what, {"guard_case": items[mism[0]][0][:3000]})
+                    else:
+                        c = info["case"]
+                        rep.broken("correspondence:" + name, what,
+                                   case_replay_obj(c, info.get("mode", "ctor"), info.get("ff", True)))
                 else:
                     rep.obligation("correspondence:%s:explained-by-violation" % name, True,
                                    "mismatching cases accompany a concrete violation reported above")
@@ -1066,7 +1398,13 @@ def run(rep, tier):
         if not any(not v["no_input"] for v in rep.violations) and not getattr(rep, "build_failed", None):
             pass
     return rep.finish(
-        rule="cases = flat class (2-5 fields: scalars, Array/Deque/Set/Tuple/Map of scalars) + argument set with a random "
-             "subset of supplied fields made invalid (wrong type / bound / element at a chosen index / key / value / newline text / "
-             "generic corruption); each run under construction and Deserializer, fail-fast on and off; distinct = distinct "
-             "(field shapes, corruption kinds); non-trivial = at least one invalid field")
+        rule="random: flat class (2-5 fields: scalars, Array/Deque/Set/Tuple/Map of scalars) + argument set with a random "
+             "subset of supplied fields made invalid (wrong type incl. unhashable / unorderable values, bound, element at a chosen "
+             "index, key, value, newline text, generic corruption); lattice: EVERY leaf kind (28: Number/Integer/Float x sign "
+             "mix-ins and bounds, String, Boolean, Enum over values / over a class, short and long) x EVERY wrong-value class (22) "
+             "at top level and in one (quick: rotating with the seed; thorough: every) position among Array/Deque item, positional "
+             "item, Tuple, Set, Map key, Map value; each under construction and Deserializer, fail-fast on and off; guard: every "
+             "leaf kind x (wrong-value classes + boundary values) and random scalar fields run through the real validation chain "
+             "and through the generated chain inside Coq; nested: fixed two-level and generated three-level documents with 1-3 "
+             "point corruptions. distinct = distinct (field shapes, corruption kinds) / lattice point / (kind, value class, "
+             "outcome); non-trivial = at least one invalid field")
